@@ -380,11 +380,69 @@ pub fn run(a: &Args) -> Option<Report> {
     }
 }
 
+/// Two metrics of one kind named X and X_<unit suffix>, both described with that unit: their sanitised names are
+/// distinct, so with unit suffixes on they are the families X_<sfx> and X_<sfx>_<sfx>, with suffixes off X and X_<sfx>;
+/// either way the exposition has one TYPE line per family and every sample under its own family.
+fn unit_twins(a: &Args, rep: &mut Report, r: &mut Rng) {
+    let n = a.budget(300, 30_000);
+    for _ in 0..n {
+        let unit = *r.pick(UNITS);
+        let sfx = match unit_suffix(unit) {
+            Some(x) => x,
+            None => continue,
+        };
+        let stem = format!("{}{}", r.pick(&["io", "rpc", "q", "mem.used", "é", "x:y", "9p"]), r.pick(&["", "_a", "1"]));
+        let twin = format!("{}_{}", stem, sfx);
+        let kind = r.below(3) as u8;
+        let mut cfg = gen_cfg(r, false);
+        cfg.overrides.clear();
+        cfg.global_labels.clear();
+        cfg.unit_suffix = r.chance(3, 4);
+        let e = build(&cfg);
+        let mut trace = Vec::new();
+        for name in [&stem, &twin] {
+            let kn = KeyName::from(name.clone());
+            match kind {
+                0 => e.rec.describe_counter(kn, Some(unit), SharedString::from("d")),
+                1 => e.rec.describe_gauge(kn, Some(unit), SharedString::from("d")),
+                _ => e.rec.describe_histogram(kn, Some(unit), SharedString::from("d")),
+            }
+            let key = Key::from_name(name.clone());
+            match kind {
+                0 => e.rec.register_counter(&key, &MD).increment(3),
+                1 => e.rec.register_gauge(&key, &MD).set(1.5),
+                _ => e.rec.register_histogram(&key, &MD).record(0.75),
+            }
+            trace.push(format!("kind{} {:?} described with {:?} and updated", kind, name, unit));
+        }
+        let text = e.handle.render();
+        rep.case(mix(fnv(twin.as_bytes()), (kind as u64) << 1 | cfg.unit_suffix as u64), true);
+        let parsed = promparse::parse(&text).map_err(|pe| format!("line {}: {} — {:?}", pe.line_no, pe.msg, pe.line)).and_then(|l| promparse::families(&l));
+        let ctx = jo! {"metrics" => J::A(trace.iter().map(|t| J::s(t.clone())).collect()), "unit_suffix_enabled" => cfg.unit_suffix, "global_buckets" => cfg.global_buckets.is_some(), "output_excerpt" => text.chars().take(500).collect::<String>()};
+        match parsed {
+            Err(m) => rep.violation("C08:family-structure:name-and-name-plus-unit", jo! {"what" => "two metrics whose names differ by a unit suffix do not render as two well-formed families", "error" => m, "case" => ctx}),
+            Ok(fams) => {
+                let (s1, s2) = (san_name(&stem), san_name(&twin));
+                let mut exp: Vec<String> = if cfg.unit_suffix { vec![format!("{}_{}", s1, sfx), format!("{}_{}", s2, sfx)] } else { vec![s1, s2] };
+                exp.sort();
+                let mut got: Vec<String> = fams.iter().map(|f| f.name.clone()).collect();
+                got.sort();
+                if got != exp {
+                    rep.violation("C08:family-structure:name-and-name-plus-unit", jo! {"what" => "two metrics whose names differ by a unit suffix are not exposed as the two families their names and units give", "families" => format!("{:?}", got), "expected" => format!("{:?}", exp), "case" => ctx});
+                }
+            }
+        }
+    }
+}
+
 fn run_seq(a: &Args, hostile: bool) -> Report {
     let pid = if hostile { "C08" } else { "C07" };
     let mut rep = Report::new(pid, &a.leg, a.seed);
     rt::quiet_panics();
     let mut r = Rng::new(a.shard_seed());
+    if hostile {
+        unit_twins(a, &mut rep, &mut r);
+    }
     let n = if hostile { a.budget(6000, 600_000) } else { a.budget(1500, 150_000) };
     for _ in 0..n {
         let mut cfg = gen_cfg(&mut r, hostile);
